@@ -1,6 +1,8 @@
 import GorumsV.Props.C07
+import GorumsV.Props.C05
 import GorumsV.Props.C13
 import GorumsV.Tie.C01
+import GorumsV.Tie.C09
 /-!
   Tie for C07 (loop-level half): the tree's loops treat an arrival as a failure iff it
   carries an error (Tie/C01), the loop parameters are the good ones (Tie/C02), and a failed
@@ -35,6 +37,10 @@ open GorumsV.Tie.C07 GorumsV.C07
 #print axioms incomplete_lists_failures
 #print axioms ctxErr_lists_failures
 #print axioms exhaustion_ctxErr_lists_failures
+#print axioms GorumsV.C05.at_most_one_error
+#print axioms GorumsV.Tie.C09.replacement_good
+#print axioms GorumsV.C09.lost_is_cancelled
+#print axioms GorumsV.C05.error_is_last
 #print axioms GorumsV.C13.status_roundtrip
 #print axioms GorumsV.C13.status_plain
 end Audit
